@@ -95,9 +95,11 @@ func (env *specEnv) resolveLocal(name string) *ssa.Alloc {
 	}
 	var best *ssa.Alloc
 	ord := 0
-	if i := strings.Index(name, "#"); i > 0 {
-		ord, _ = strconv.Atoi(name[i+1:])
-		name = name[:i]
+	if i := strings.LastIndex(name, "__"); i > 0 {
+		if n, err := strconv.Atoi(name[i+2:]); err == nil {
+			ord = n
+			name = name[:i]
+		}
 	}
 	var cands []*ssa.Alloc
 	for _, b := range env.localFn.Blocks {
@@ -299,7 +301,8 @@ func (fc *FnCtx) evalIdent(env *specEnv, name string) Val {
 	}
 	if g, ok := fc.eng.ghosts[name]; ok {
 		k := fc.ghostKey(name)
-		return Val{T: fc.heapGet(env.st, k), Sort: g.Sort, Ty: goTypeOfSort(g.Sort)}
+		gs := fc.ghostSort(g.Sort)
+		return Val{T: fc.heapGet(env.st, k), Sort: gs, Ty: goTypeOfSort(gs)}
 	}
 	if sf, ok := fc.eng.specFns[name]; ok && len(sf.Args) == 0 {
 		return Val{T: name, Sort: sf.Res, Ty: goTypeOfSort(sf.Res)}
@@ -421,7 +424,7 @@ func (fc *FnCtx) indexVal(env *specEnv, base, idx Val) Val {
 		switch t := base.Ty.Underlying().(type) {
 		case *types.Slice:
 			k := fc.elemKey(t.Elem())
-			return fc.mkVal(app(fc.atFn(t.Elem()), fc.heapGet(env.st, k), base.T, idx.T), t.Elem())
+			return fc.mkVal(app(fc.atFn(t.Elem()), fc.heapGet(env.st, k), app("arr", base.T), app("off", base.T), idx.T), t.Elem())
 		case *types.Basic:
 			if t.Info()&types.IsString != 0 {
 				return Val{T: app("sat", base.T, idx.T), Sort: sortInt, Ty: types.Typ[types.Int]}
@@ -437,7 +440,11 @@ func (fc *FnCtx) indexVal(env *specEnv, base, idx Val) Val {
 		// spec-level array: result sort is the last component
 		parts := splitSexprs(base.Sort[1 : len(base.Sort)-1])
 		rs := parts[len(parts)-1]
-		return Val{T: app("select", base.T, idx.T), Sort: rs, Ty: goTypeOfSort(rs)}
+		ty := goTypeOfSort(rs)
+		if ty == nil {
+			ty = fc.sorts.bySort[rs]
+		}
+		return Val{T: app("select", base.T, idx.T), Sort: rs, Ty: ty}
 	}
 	if base.Sort == sortStr {
 		return Val{T: app("sat", base.T, idx.T), Sort: sortInt, Ty: types.Typ[types.Int]}
@@ -490,6 +497,10 @@ func (fc *FnCtx) evalBinary(env *specEnv, x *ast.BinaryExpr) Val {
 				specFail("comparison of different sorts %s and %s", a.Sort, b.Sort)
 			}
 			e = eq(a.T, b.T)
+			if a.Sort == sortBool && (hasQuant(a.T) || hasQuant(b.T)) {
+				// an equivalence with quantifiers inside is easier for the solvers as two implications
+				e = and(implies(a.T, b.T), implies(b.T, a.T))
+			}
 		}
 		if x.Op == token.NEQ {
 			e = not(e)
@@ -526,6 +537,10 @@ func (fc *FnCtx) evalBinary(env *specEnv, x *ast.BinaryExpr) Val {
 	}
 	specFail("unsupported binary operator %v", x.Op)
 	return Val{}
+}
+
+func hasQuant(t string) bool {
+	return strings.Contains(t, "(forall ") || strings.Contains(t, "(exists ")
 }
 
 func (fc *FnCtx) binder(env *specEnv, name, sortName string) (string, Val) {
@@ -584,7 +599,11 @@ func (fc *FnCtx) evalCall(env *specEnv, x *ast.CallExpr) Val {
 	case "imp":
 		return boolV(implies(arg(0).T, arg(1).T))
 	case "iff":
-		return boolV(eq(arg(0).T, arg(1).T))
+		a, b := arg(0).T, arg(1).T
+		if hasQuant(a) || hasQuant(b) {
+			return boolV(and(implies(a, b), implies(b, a)))
+		}
+		return boolV(eq(a, b))
 	case "ite":
 		a, b := arg(1), arg(2)
 		return Val{T: ite(arg(0).T, a.T, b.T), Sort: a.Sort, Ty: a.Ty}
@@ -700,7 +719,9 @@ func (fc *FnCtx) evalCall(env *specEnv, x *ast.CallExpr) Val {
 		}
 		return Val{T: a.T, Sort: sortInt, Ty: types.Typ[types.Int]}
 	case "arrid":
-		return Val{T: app("arr", arg(0).T), Sort: sortInt, Ty: types.Typ[types.Int]}
+		return Val{T: slArr(arg(0).T), Sort: sortInt, Ty: types.Typ[types.Int]}
+	case "offof":
+		return Val{T: slOff(arg(0).T), Sort: sortInt, Ty: types.Typ[types.Int]}
 	case "flt":
 		lit, ok := x.Args[0].(*ast.BasicLit)
 		if !ok {
